@@ -6,6 +6,8 @@
 package xstate
 
 import (
+	"crypto/sha256"
+	"encoding/hex"
 	"encoding/json"
 	"fmt"
 	"strings"
@@ -190,12 +192,35 @@ func HandleExpand(raw []byte) interface{} {
 
 // Node is a state of the search graph.
 type Node struct {
-	Key    string
-	Parent *Node
-	Op     pagedrv.Op
-	Depth  int
-	Quiet  bool
-	Log    string // logical state when quiet
+	Key     string
+	Parent  *Node
+	Op      pagedrv.Op
+	Depth   int
+	Quiet   bool
+	Log     string // key of the logical state when quiet
+	NoStats string // same with FileStats masked
+}
+
+// LogKey is what a Node keeps of a logical state (the full JSON of ~1 KiB per
+// state would dominate the coordinator's memory in deep searches).
+func LogKey(log string) string {
+	if log == "" {
+		return ""
+	}
+	h := sha256.Sum256([]byte(log))
+	return hex.EncodeToString(h[:12])
+}
+
+func noStats(log string) string {
+	if log == "" {
+		return ""
+	}
+	var l pagedrv.Logical
+	if json.Unmarshal([]byte(log), &l) != nil {
+		return ""
+	}
+	l.Stats = pagedrv.Logical{}.Stats
+	return LogKey(l.String())
 }
 
 // QuietAncestor returns the nearest ancestor (or n itself) without an open
@@ -286,7 +311,8 @@ func BFS(ctx *core.Ctx, pool *par.Pool, spec Spec) Stats {
 			if first && from == root {
 				root.Key = r.Key
 				root.Quiet = true
-				root.Log = r.Log
+				root.Log = LogKey(r.Log)
+				root.NoStats = noStats(r.Log)
 				seen[r.Key] = root
 				st.States++
 			}
@@ -304,7 +330,7 @@ func BFS(ctx *core.Ctx, pool *par.Pool, spec Spec) Stats {
 					if ex, ok := seen[s.Key]; ok {
 						to = ex
 					} else {
-						n := &Node{Key: s.Key, Parent: from, Op: s.Op, Depth: from.Depth + 1, Quiet: s.Quiet, Log: s.Log}
+						n := &Node{Key: s.Key, Parent: from, Op: s.Op, Depth: from.Depth + 1, Quiet: s.Quiet, Log: LogKey(s.Log), NoStats: noStats(s.Log)}
 						seen[s.Key] = n
 						next = append(next, n)
 						st.States++
@@ -328,7 +354,12 @@ func BFS(ctx *core.Ctx, pool *par.Pool, spec Spec) Stats {
 		}
 		ctx.Log("cfg %s depth %d: %d new states, %d total, %d transitions", spec.Cfg.Name, depth+1, len(next), st.States, st.Transitions)
 		frontier = next
-		if spec.MaxStates > 0 && st.States >= spec.MaxStates && len(frontier) > 0 {
+		maxStates := spec.MaxStates
+		if maxStates == 0 {
+			maxStates = 600000 // memory guard of the coordinator; reported as a cap when hit
+		}
+		if st.States >= maxStates && len(frontier) > 0 {
+			spec.MaxStates = maxStates
 			ctx.Cap("cfg %s: state bound %d reached at depth %d", spec.Cfg.Name, spec.MaxStates, depth+1)
 			break
 		}
